@@ -154,6 +154,8 @@ def H_n(i):
 CIPHERS = tuple(Transport._preferred_ciphers)
 MACS = tuple(Transport._preferred_macs)
 COMPRESSIONS = ("none", "zlib")
+DELAYED = "zlib@openssh.com"       # compression that only starts once the connection is authenticated
+COMPRESSIONS_ALL = COMPRESSIONS + (DELAYED,)
 
 
 def is_gcm(cipher):
@@ -281,9 +283,12 @@ def payload(n, salt, compressible=False, ptype=94):
 
 
 # ------------------------------------------------------------------ scripted one-way sessions
-# A script is a list of items, each producing exactly one packet on the wire:
+# A script is a list of items; "switch" and "msg" produce exactly one packet on the wire each, "auth" none:
 #   ("switch", cipher, mac, comp, strict)          key switch: NEWKEYS under the old keys, then new keys
 #   ("msg", length, compressible, ptype, salt)     one message of `length` bytes (type byte included)
+#   ("auth",)                                      authentication completes at this point of the stream: both ends run
+#                                                  Transport._auth_trigger() (starts delayed zlib@openssh.com
+#                                                  compression; later key switches see `authenticated`)
 
 def script_messages(script):
     return [payload(it[1], it[4], it[2], it[3]) for it in script if it[0] == "msg"]
@@ -302,6 +307,8 @@ def transmit(direction, script, tclass=Transport, send_max=None, send_faults=Non
     for it in script:
         if it[0] == "switch":
             link.tx_switch((it[1], it[2], it[3]), strict=it[4])
+        elif it[0] == "auth":
+            link.tx._auth_trigger()
         else:
             data = payload(it[1], it[4], it[2], it[3])
             link.send(data)
@@ -312,8 +319,12 @@ def transmit(direction, script, tclass=Transport, send_max=None, send_faults=Non
                      "send_faults_raised": q.send_faults_raised}
     stream = q.drain()
     if send_max is None and not send_faults:
-        if len(calls) != len(script):
-            raise AssertionError("seam: %d socket writes for %d script items" % (len(calls), len(script)))
+        n_packets = sum(1 for it in script if it[0] != "auth")
+        if len(calls) != n_packets:
+            raise AssertionError("seam: %d socket writes for %d script items" % (len(calls), n_packets))
+        if n_packets != len(script):      # keep the per-item alignment: an "auth" item wrote nothing
+            rest = iter(calls)
+            calls = [b"" if it[0] == "auth" else next(rest) for it in script]
         return stream, calls, sent
     chunks = [stream[marks[i] - marks[0]:marks[i + 1] - marks[0]] for i in range(len(script))]
     return stream, chunks, sent
@@ -361,6 +372,8 @@ def receive(direction, script, stream, max_chunk=None, cuts=(), timeouts=(), tcl
         for i, it in enumerate(script):
             if it[0] == "switch":
                 link.rx_switch((it[1], it[2], it[3]), strict=it[4])
+            elif it[0] == "auth":
+                link.rx._auth_trigger()
             else:
                 ptype, body = link.read()
                 r.got.append(bytes([ptype]) + body)
